@@ -34,7 +34,12 @@ RULE = ('template trees over 13 node kinds (constant, table hold/jump/linear, po
         '(3 %) three entries at the final time.  Grid: every multiple of 1/4 up to the '
         'duration (sub-sampled to <= 40 points, all junctions of the generated trees lie on it) + off-grid points + '
         't = duration; the same grid read through plotting.render(sample_rate=4) (+ all rendered points compared with '
-        'get_sampled).  Non-trivial = tree with >= 3 nodes that instantiates to a program.')
+        'get_sampled).  Round 3 families (c01_gen2): loop index REBOUND by a mapping between loop and body (rebinding '
+        'expression x node below the mapping x position x range; exhaustive small scope in thorough), x -> f(x) / swap / cycle '
+        'mappings of parameters and channels, a parameter called t, one template object in several places + warm-up '
+        'instantiation with other values + decoy-grid / repeated / output_array sampling, the longest table channel dropped, '
+        'declared-as-empty overwrite / scalar mapping / None arguments, AtomicMultiChannelPT parts with parameterised '
+        'durations (0, negative, dropped, all zero, under a loop).  Non-trivial = tree with >= 3 nodes that instantiates to a program.')
 TRUSTED = [
     'Coq 8.16.1 kernel + vm_compute (no native_compute)',
     'harness: generator, construction of the qupulse objects from the JSON tree, exact float->rational conversion, '
@@ -48,6 +53,7 @@ ASSUMPTIONS = [
     'no zero-length linear table segment (tbl_guard); channel mappings injective on the complete mapping',
     'FunctionPT: affine expressions a + b*t with positive duration only',
     'measurements, parameter constraints, to_single_waveform, volatile parameters are not exercised (C02/C03/C05/C15)',
+    'a parameter called t never occurs inside a FunctionPT expression, an ArithmeticPT scalar or a ParallelChannelPT value (there t is the time)',
 ]
 
 INTERP = {'hold': 'Hold', 'jump': 'Jump', 'linear': 'Linear'}
@@ -653,11 +659,19 @@ def search_failing(ctx, broken):
         if any(k in G.ATOMS for k in kinds):
             for _ in range(60):
                 cands.append(G.gen_case(rng, max_depth=4, kinds=kinds))
-    for _ in range(60):
-        cands.append(G.gen_case(rng, max_depth=4))
+    fam = {'rebind': G2.gen_rebind_case, 'selfmap': G2.gen_selfmap_case, 'tname': G2.gen_tname_case,
+           'alias': G2.gen_alias_case, 'dropped': G2.gen_dropped_case, 'multizero': G2.gen_multizero_case}
+    if near is not None and near.get('family') in fam:
+        for _ in range(60):
+            cands.append(fam[near['family']](rng))
     for _ in range(40):
+        cands.append(G.gen_case(rng, max_depth=4))
+    for _ in range(30):
         cands.append(G.gen_fold_case(rng))
-    cands = cands[:320]
+    for f in (G2.gen_rebind_case, G2.gen_selfmap_case, G2.gen_alias_case, G2.gen_dropped_case):
+        for _ in range(8):
+            cands.append(f(rng))
+    cands = cands[:340]
     obs, bad = _spec_failures(cands, ctx, 'search')
     known = vlib.load_known_findings()[0].get(PID, {})
     bad = [i for i in bad if classify(cands[i], obs[i]) not in known]
@@ -674,17 +688,24 @@ MANIFEST = {
                   'in full): every composite node kind, any nesting of scalar arithmetic (transformation composition '
                   'lemma), every modelled atom kind (ConstantPT, TablePT with entry de-duplication / constant detection / '
                   'hold / jump / linear, PointPT, AtomicMultiChannelPT, ArithmeticAtomicPT, affine FunctionPT) incl. enclosing '
-                  'transformation and constant short-cut. The only hypotheses are the executable guards of the two '
+                  'transformation and constant short-cut. The only hypotheses are the executable guards of the '
                   'known findings (ParallelChannelPT under a transformation: C01_denotes_refuted; table with a triple '
-                  'final time point: C01_table_final_refuted) plus the exclusion of zero-length linear segments and of '
-                  'FunctionPT with non-positive duration. '
+                  'final time point: C01_table_final_refuted; since round 3 also the AtomicMultiChannelPT part of duration 0 '
+                  'next to a part of positive duration, third known finding) plus the exclusion of zero-length linear '
+                  'segments and of FunctionPT with non-positive duration. '
                   'to_waveform + get_sampled = the program meaning is proved for all well-formed program trees '
-                  '(C01_sampling_loops) and for create_program outputs (C01_sampling_partial). The model is tied to '
-                  '/repo by an exact correspondence check (13 node kinds; get_sampled and plotting.render samples on '
-                  'junction-aligned and off-grid points), and the denotation is evaluated directly on the '
-                  'implementation as the specification oracle.',
+                  '(C01_sampling_loops) and for create_program outputs (C01_sampling_partial). Round 3: the LoopBuilder\'s '
+                  'frame stack (StackFrame.iterating / inner_scope) is part of the model that the correspondence runs '
+                  '(create_program_b) and is proved irrelevant for the result (C01_builder_frames: cpb = cp for every tree, '
+                  'scope, stack); third known finding with refutation and guard conjunct: AtomicMultiChannelPT silently drops '
+                  'a part of duration 0 whose channel is kept (C01_multi_zero_refuted, C01_multi_zero_unplayable). The model '
+                  'is tied to /repo by an exact correspondence check (13 node kinds; get_sampled and plotting.render samples '
+                  'on junction-aligned and off-grid points; shared template objects, warm-up instantiation, repeated / decoy '
+                  'sampling), and the denotation is evaluated directly on the implementation as the specification oracle.',
     'level_note': '_partial: C01_sampling_partial assumes that to_waveform succeeds (guaranteed by qupulse constructors '
-                  'for well-formed templates, not by the model). Open: error correspondence '
+                  'for well-formed templates, not by the model). ArithmeticAtomicPT with an operand of duration 0 plays the '
+                  'other operand alone; there the specification still mirrors the code (observed, not classified). '
+                  'Open: error correspondence '
                   '(C01_errors_statement is false as stated: eager scope evaluation in ArithmeticPT, non-injective '
                   'channel mappings). Not modelled: non-affine FunctionPT expressions (the affine FunctionWaveform is '
                   'represented by the observationally equal linear table), time-dependent transformation values, '
